@@ -424,6 +424,16 @@ def finish(prop, args, mod, items, results, replay_bin, known, kmap, t0, seed, r
             s = r["sample"][len(r["sample"]) // 2]
             samples.append({"item": item_fields(it), "model": s["m"], "result": s.get("s"), "outcome": s["k"], "paths_of_item": r["paths"]})
 
+    # ---- additional engine of the property module (e.g. the assembly executor for C18) ----
+    extra_info = {}
+    if hasattr(mod, "extra_check"):
+        ev_v, extra_info = mod.extra_check(args.tier)
+        for v in ev_v:
+            violations.append(v)
+        total_paths += extra_info.get("paths", 0)
+        total_decisions += extra_info.get("queries", 0)
+        validated += extra_info.get("validated", 0)
+
     # ---- cross-item assertions of the property module (e.g. C05 growth) ----
     post_info = {}
     if hasattr(mod, "post_check"):
@@ -517,6 +527,8 @@ def finish(prop, args, mod, items, results, replay_bin, known, kmap, t0, seed, r
     ev["coverage"].update(extra)
     if post_info:
         ev["coverage"]["post_check"] = post_info
+    if extra_info:
+        ev["coverage"]["assembly"] = extra_info
     if not args.no_evidence:
         with open(os.path.join(VERIF, "evidence", prop + ".json"), "w") as f:
             json.dump(ev, f, indent=1)
@@ -528,6 +540,14 @@ def finish(prop, args, mod, items, results, replay_bin, known, kmap, t0, seed, r
 def do_replay(prop, path):
     with open(path) as f:
         v = json.load(f)
+    if v.get("item", {}).get("asm"):
+        mod = importlib.import_module("props." + prop)
+        vs, info = mod.extra_check("quick", only=v["item"]["kernel"])
+        print(json.dumps({"kernel": v["item"]["kernel"], "result": info.get("kernels")}, indent=1))
+        if vs:
+            print("VIOLATION property=%s replay=%s" % (prop, path))
+            return 1
+        return 0
     tmpdir = tempfile.mkdtemp(prefix="verif-replay-")
     try:
         rb = build_replay(tmpdir)
